@@ -569,6 +569,84 @@ static void obj_stream(hwloc_topology_t t1, hwloc_topology_t t2, const char *xml
   free(o1);
 }
 
+/* ---- tree-level stream (v3, nolibxml export, small topologies): the element tree of the REAL export below the root <object>
+ * (tags, raw attribute bytes of every start tag, text content, nesting), the object tree of the original topology and the object
+ * tree of the reloaded topology, each in document order (memory, normal, I/O, Misc children):
+ *   TB <nobjs>
+ *   TE <depth> <tag hex> <raw attribute bytes hex> <content hex | ->                    one per element of the export
+ *   TO|TR <depth> <kind r|m|n|i|x> <fields as in OBJ> I <n> (<name> <value>)* P <n> (<size> <count>)* U <n> (<name|-> <b64> <data>)*
+ *   TJ                                                                                  expected answer "TREE ok"
+ * The driver builds the model tree from the TO lines: exportTree of it must be the TE tree exactly, it must be TreeValid,
+ * importTree of the TE tree must be normTree of it, and must agree with the TR tree on what the model carries. */
+static int is_blank_c(char c) { return c == ' ' || c == '\t' || c == '\n' || c == '\r'; }
+static int tree_elems(const char *xml, size_t len) {
+  const char *end = xml + len, *p = NULL;
+  for (size_t k = 0; k + 8 <= len; k++) if (!memcmp(xml + k, "<object ", 8)) { p = xml + k; break; }
+  if (!p) return -1;
+  int depth = 0, n = 0;
+  while (p < end && *p == '<') {
+    if (p[1] == '/') {
+      while (p < end && *p != '>') p++;
+      if (p >= end) return -1;
+      p++; depth--;
+      if (depth <= 0) break;
+      while (p < end && is_blank_c(*p)) p++;
+      continue;
+    }
+    const char *t = p + 1, *te = t;
+    while (te < end && ((*te >= 'a' && *te <= 'z') || (*te >= '0' && *te <= '9') || *te == '_')) te++;
+    const char *gt = te; while (gt < end && *gt != '>') gt++;
+    if (gt >= end) return -1;
+    int closed = gt[-1] == '/';
+    const char *ae = closed ? gt - 1 : gt;
+    const char *q = gt + 1, *r = q;
+    int has = 0;
+    if (!closed) {
+      while (r < end && *r != '<') r++;
+      if (r >= end) return -1;
+      if ((size_t) (te - t) == 8 && !memcmp(t, "userdata", 8)) has = 1;          /* get_content takes the exact bytes up to the next tag */
+      else for (const char *z = q; z < r; z++) if (!is_blank_c(*z)) has = 1;
+    }
+    fprintf(fops, "TE %d ", depth); fhex(fops, t, (size_t) (te - t)); fputc(' ', fops); fhex(fops, te, (size_t) (ae - te)); fputc(' ', fops);
+    if (has) fhex(fops, q, (size_t) (r - q)); else fputc('-', fops);
+    fputc('\n', fops); fprintf(fc, ".\n"); n++;
+    if (closed) {
+      if (depth == 0) break;
+      p = q; while (p < end && is_blank_c(*p)) p++;
+    } else { depth++; p = r; }
+  }
+  return n;
+}
+static void tree_objs(const char *op, hwloc_topology_t t, hwloc_obj_t o, int depth, char kind) {
+  hwloc_obj_t c;
+  fprintf(fops, "%s %d %c ", op, depth, kind); obj_fields(fops, t, o);
+  fprintf(fops, " I %u", o->infos.count);
+  for (unsigned i = 0; i < o->infos.count; i++) { fputc(' ', fops); fhexs(fops, o->infos.array[i].name); fputc(' ', fops); fhexs(fops, o->infos.array[i].value); }
+  if (o->type == HWLOC_OBJ_NUMANODE) {
+    fprintf(fops, " P %u", o->attr->numanode.page_types_len);
+    for (unsigned i = 0; i < o->attr->numanode.page_types_len; i++)
+      fprintf(fops, " %llu %llu", (unsigned long long) o->attr->numanode.page_types[i].size, (unsigned long long) o->attr->numanode.page_types[i].count);
+  } else fputs(" P 0", fops);
+  unsigned nu = 0; for (struct ud_entry *e = o->userdata; e; e = e->next) nu++;
+  fprintf(fops, " U %u", nu);
+  for (struct ud_entry *e = o->userdata; e; e = e->next) { fputc(' ', fops); fhexs(fops, e->name); fprintf(fops, " %d ", e->b64 ? 1 : 0); fhex(fops, e->data, e->len); }
+  fputc('\n', fops); fprintf(fc, ".\n");
+  for (c = o->memory_first_child; c; c = c->next_sibling) tree_objs(op, t, c, depth + 1, 'm');
+  for (c = o->first_child; c; c = c->next_sibling) tree_objs(op, t, c, depth + 1, 'n');
+  for (c = o->io_first_child; c; c = c->next_sibling) tree_objs(op, t, c, depth + 1, 'i');
+  for (c = o->misc_first_child; c; c = c->next_sibling) tree_objs(op, t, c, depth + 1, 'x');
+}
+#define TREE_MAX_OBJS 160
+static void tree_stream(hwloc_topology_t t1, hwloc_topology_t t2, const char *xml, size_t len) {
+  recollect(t1);
+  if (nobjs > TREE_MAX_OBJS || len > 400000) return;
+  emit(".", "TB %u", nobjs);
+  tree_elems(xml, len);
+  tree_objs("TO", t1, hwloc_get_root_obj(t1), 0, 'r');
+  tree_objs("TR", t2, hwloc_get_root_obj(t2), 0, 'r');
+  emit("TREE ok", "TJ");
+}
+
 static void roundtrip(char mode, int fmt) {
   unsigned long xflags = fmt == 2 ? HWLOC_TOPOLOGY_EXPORT_XML_FLAG_V2 : 0;
   hwloc_topology_t t2 = NULL;
@@ -598,6 +676,7 @@ static void roundtrip(char mode, int fmt) {
   ev_flush_to_ops(); evf = NULL;
   emit("EQ ok", "CMP v%d", fmt);
   if (fmt == 3 && !cur_export_libxml && !getenv("VERIF_XMLRT_NO_OBJ")) obj_stream(topo, t2, x1, len1);
+  if (fmt == 3 && !cur_export_libxml && !getenv("VERIF_XMLRT_NO_TREE")) tree_stream(topo, t2, x1, len1);
   flush2();
   /* hwloc_topology_check() is not called on the reloaded topology: it is equivalent to the original (just judged), and whether
    * the original passes it is C01/C02's business (VERIF_XMLRT_CHECK=1 runs it on both, original first) */
